@@ -2,7 +2,7 @@ CONSTANTS
   MaxT = 4
   MaxP = 2
   Shards = 64
-  AlphaSel = {1}
+  AlphaSel = {1, 2, 3}
 INIT EInit
 NEXT ENext
 INVARIANT Emit
